@@ -70,7 +70,8 @@ def _agg():
     from drivers import agg
 
     def variants(tier, r, cin):
-        return list(agg.VARIANTS) if tier == "thorough" else [r.choice(agg.VARIANTS)]
+        # quick: one single-model zone and one `|split` variant (a sub-model per season) per layout
+        return list(agg.VARIANTS) if tier == "thorough" else [r.choice(agg.VARIANTS[:4]), r.choice(agg.VARIANTS[4:])]
 
     return runner.PureSpec(
         prop="C19", module="Agg", trace_module="AggTrace", driver="drivers.agg", keep='pc = "done"',
@@ -215,7 +216,7 @@ def _prep():
     from drivers import prep
 
     def variants(tier, r, cin):
-        return list(prep.VARIANTS) if tier == "thorough" else [r.choice(prep.VARIANTS[:6]), r.choice(prep.VARIANTS[6:])]
+        return list(prep.VARIANTS) if tier == "thorough" else [r.choice(prep.VARIANTS[:6]), r.choice(prep.VARIANTS[6:10]), r.choice(prep.VARIANTS[10:])]
 
     return runner.PureSpec(
         prop="C17", module="Prep", trace_module="PrepTrace", driver="drivers.prep",
@@ -311,6 +312,10 @@ def _resample(prop):
             return vs if tier == "thorough" else [r.choice(vs)]
         elif cin["kind"] == "subdaily":
             vs = [f + "@" + z for f in ("nan-cells", "absent-rows") for z in ("America/Chicago", "Europe/London", "Australia/Sydney")]
+            if cin["interval"] == 60 and len(cin["missing"]) in (0, 1, 11):
+                # "+twin": nine months of readings; the same instants are processed as a meter of a zone without clock changes just before
+                tw = ["nan-cells+twin@Europe/London", "nan-cells+twin@America/Chicago"]
+                return vs + tw if tier == "thorough" else [vs[0], r.choice(vs[1:]), r.choice(tw)]
         else:
             # "!e0": an electricity meter that reads exactly 0 on the judged day (zero is missing USAGE; the day's temperature is still its mean)
             vs = [f + e + "@" + z for e in ("", "!e0") for f in ("feed-local", "feed-utc", "feed-kolkata") for z in ("America/Chicago", "Europe/London", "Australia/Sydney")]
